@@ -1135,6 +1135,10 @@ def check_C17(tr, welcome=None):
                 taken = {r[2] for r in st.pre.nameplates if b and r[1] == b[0]}
                 if all(str(k) in taken for k in range(1, 1000)):
                     known = "K-alloc-exhaust"
+            if clss == ["OverflowError"] and m.get("type") == "add" and any(
+                    isinstance(m.get(k), int) and not isinstance(m.get(k), bool) and not (-2 ** 63 <= m.get(k) < 2 ** 63)
+                    for k in ("phase", "body", "id")):
+                known = "K-int64-overflow"
             out.append(Finding("C17", "no sequence of well-formed commands makes a handler fail internally", st.i,
                                {"events": st.raw_events}, known))
     return out
